@@ -9,6 +9,8 @@ and on the general families.  Clauses (tolerance 1e-12 * max(|lower|,|upper|,upp
   refine-not-worse       returned value <= best value of the global phase
   value-is-objective     returned value == objective(returned point), recomputed
   refinement-ran         refineSolution=True really made local calls and reports their number; False made none
+Observation (no clause): stats['record_changed_by_refinement_runs'] counts the refined runs after which the best item of the
+search record no longer carries the evolvent image of its coordinate / its GetZ() (DoLocalRefinement overwrites it in place).
 """
 import os
 import sys
@@ -83,6 +85,13 @@ def check_case(case):
         vs.append(oc.violation(PROP, case, "refinement-ran", {"local_calls": len(l), "reported": sol.numberOfLocalTrials,
                                                               "refineSolution": False}))
     info["moved"] = len({e[1] for e in l}) > 1
+    # observation only (not a clause of C05/C06): the refinement writes its result in place into the best item of the
+    # search record, whose point then is no longer the evolvent image of its coordinate / whose value differs from GetZ()
+    mb = run.solver.method.best
+    if case["refine"] and mb is not None:
+        img = tuple(float(v) for v in run.fresh_image(float(mb.GetX())))
+        now = tuple(float(v) for v in mb.point.floatVariables)
+        info["record_changed"] = now != img or mb.GetZ() != mb.functionValues[0].value
     return vs, info
 
 
@@ -108,6 +117,7 @@ def run(tier, r):
         oc.bump(stats, "float_collapse_stops", 1 if info.get("float_collapse") else 0)
         oc.bump(stats, "local_points", info.get("local", 0))
         oc.bump(stats, "refinement_improved", 1 if info.get("improved") else 0)
+        oc.bump(stats, "record_changed_by_refinement_runs", 1 if info.get("record_changed") else 0)
         key = oc.case_key(case)
         if key not in keys:
             keys.add(key)
